@@ -40,7 +40,7 @@ func addIEReaderCase(c *Corr, rep *Report, src string, replay interface{}) {
 	var tbl []string
 	for _, e := range els {
 		a := distiller.VerifElementAtoms(e)
-		fmt.Fprintf(&sb, " %d %s %s 0 0 0 0 0", d.ID[e], hx(a.StyleDisplay), b01(a.VisHidden))
+		fmt.Fprintf(&sb, " %d %s %s 0 0 0 0 0 %s", d.ID[e], hx(a.StyleDisplay), b01(a.VisHidden), b01(distiller.VerifIsForeignRawText(e)))
 		if e.Data == "meta" {
 			for _, k := range []string{"name", "content"} {
 				v := getAttr(e, k)
